@@ -1,6 +1,7 @@
 import ZixModel.Model.Path
 import ZixModel.Spec.Cpp17Path
 import ZixModel.Lemmas.PathDecomp
+import ZixModel.Generated.CharClass
 /-! # C10 — path decomposition and queries follow the C++17 filesystem::path model
 
 Property theorems only; helper lemmas live in `ZixModel/Lemmas/PathDecomp.lean`.
@@ -104,5 +105,12 @@ theorem preferred_id_posix (s : List Nat) : preferred s = s := by
 /-! ## non-vacuity: "//a/b.c.d" -/
 example : slice [47, 47, 97, 47, 98, 46, 99, 46, 100] (extensionRange [47, 47, 97, 47, 98, 46, 99, 46, 100]) = [46, 100] := by decide
 example : parentRange [47, 47, 97, 47, 98, 46, 99, 46, 100] = (1, 3) := by decide
+
+/-- The separator class is the code's: `Generated/CharClass.lean` lists the bytes `is_dir_sep` of the
+current src/path.c accepts (regenerated on every run by compiling it); the model's `isSep` is that
+set, for every byte value. -/
+theorem isSep_is_the_codes (c : Nat) (h : c < 256) : Zix.Path.isSep c = Zix.Generated.dirSeps.contains c := by
+  have key : ∀ c ∈ List.range 256, Zix.Path.isSep c = Zix.Generated.dirSeps.contains c := by decide +kernel
+  exact key c (List.mem_range.2 h)
 
 end Zix.C10
